@@ -1,3 +1,184 @@
 import UvModel.Lemmas.TpoolLemmas
+/-!
+# C08 — thread-pool requests: run once, complete once on the loop, cancel is exact, slow cap
+
+Model: `UvModel.Tpool` (interleaving transition system over src/threadpool.c at critical-section
+granularity).  `Reach n L s`: `s` is reachable from the initial pool of `n` workers and `L` loops by
+an arbitrary action list = every interleaving of submitters, workers, `uv_cancel` calls and
+`uv__work_done` passes, with arbitrary signal choices and spurious wake-ups.  Events (`Ev.ws` work
+function entered, `Ev.we` returned, `Ev.dn i st` done callback with status, `Ev.ret v` result of
+`uv_cancel`) are what the correspondence check compares with the real code step by step.
+-/
 namespace UvModel.Tpool
+
+/-- The work function of a request starts at most once, in every reachable state. -/
+theorem runs_at_most_once {n L : Nat} {s : State} (hr : Reach n L s) {i : Nat} (hi : i < s.nItems) :
+    (s.items i).starts ≤ 1 := by
+  have a := (inv_reach hr).itemOk i hi
+  simp only [ItemOk] at a
+  split at a <;> omega
+
+example : Reach 2 1 (run (State.init 2 1) [.sub 0 .cpu 0, .wk 0 0, .wk 0 0, .wk 0 0]) ∧
+    ((run (State.init 2 1) [.sub 0 .cpu 0, .wk 0 0, .wk 0 0, .wk 0 0]).items 0).starts = 1 :=
+  ⟨⟨_, rfl⟩, by decide⟩
+
+/-- A work function is entered only by a pool worker (`t < n`) that dequeued exactly this item, only if it
+    never started before and no `uv_cancel` returned 0 for it; the start counter then becomes 1. -/
+theorem work_starts_only_on_worker {n L : Nat} {s s' : State} {a : Act} {evs : List Ev} (hr : Reach n L s)
+    (e : step s a = some (s', evs)) {i : Nat} (hw : Ev.ws i ∈ evs) :
+    (∃ t c b, a = .wk t c ∧ t < s.n ∧ s.workers t = .got i b) ∧ (s.items i).starts = 0 ∧
+      (s.items i).cancelOk = false ∧ (s'.items i).starts = 1 := by
+  obtain ⟨t, c, b, h1, h2, h3, h4, h5, h6, -⟩ := work_start_sound (inv_reach hr) e hw
+  have := (counters_frame e i h4).1 hw
+  exact ⟨⟨t, c, b, h1, h2, h3⟩, h5, h6, by omega⟩
+
+/-- In every reachable state a request has had at most one done callback; if it had one, the status is
+    `UV_ECANCELED` exactly when a `uv_cancel` returned 0 (and then the work function never ran), otherwise
+    the work function ran once, returned, and the status is 0. -/
+theorem done_at_most_once {n L : Nat} {s : State} (hr : Reach n L s) {i : Nat} (hi : i < s.nItems) :
+    (s.items i).dones ≤ 1 ∧
+    ((s.items i).dones = 1 →
+      ((s.items i).cancelOk = true ∧ (s.items i).status = ECANCELED ∧ (s.items i).starts = 0) ∨
+      ((s.items i).cancelOk = false ∧ (s.items i).status = 0 ∧ (s.items i).starts = 1 ∧
+        (s.items i).returned = true)) := by
+  have a := (inv_reach hr).itemOk i hi
+  simp only [ItemOk] at a
+  split at a <;> grind
+
+/-- safety half of `done_exactly_once_after_work`: a done callback is made only by the owning loop's
+    `uv__work_done` (action `go` of that loop), never for a request that already had one, and only after the work
+    function returned (status 0) or after `uv_cancel` returned 0 (status `UV_ECANCELED`, work never started). -/
+theorem done_only_after_work_on_owning_loop {n L : Nat} {s s' : State} {a : Act} {evs : List Ev}
+    (hr : Reach n L s) (e : step s a = some (s', evs)) {i : Nat} {st : Int} (hd : Ev.dn i st ∈ evs) :
+    a = .go (s.items i).loop ∧ (s.items i).dones = 0 ∧ (s'.items i).dones = 1 ∧
+      (((s.items i).returned = true ∧ (s.items i).starts = 1 ∧ (s.items i).cancelOk = false ∧ st = 0) ∨
+       ((s.items i).cancelOk = true ∧ (s.items i).starts = 0 ∧ (s.items i).returned = false ∧
+         st = ECANCELED)) := by
+  obtain ⟨h1, h2, h3, h4⟩ := done_sound (inv_reach hr) e hd
+  have := (counters_frame e i h2).2.2.1 ⟨st, hd⟩
+  exact ⟨h1, h3, by omega, h4⟩
+
+/-- `cancel_exact`, first locked region of `uv__work_cancel`: the decision is "cancelled" iff the request sits in
+    a queue (global, slow-I/O, or the loop's completion queue as an already cancelled request) and has not
+    started; then it is unlinked from every work queue.  Otherwise nothing changes. -/
+theorem cancel_exact {n L : Nat} {s s' : State} {l i : Nat} {evs : List Ev} (hr : Reach n L s)
+    (e : step s (.can l i) = some (s', evs)) :
+    ∃ ok, (s'.loops l).cmid = some (i, ok) ∧ (ok = true ↔ QueuedNotStarted s i) ∧
+      (ok = true → (s.items i).starts = 0 ∧ Ent.item i ∉ s'.wq ∧ i ∉ s'.sq ∧ (s'.items i).starts = 0) ∧
+      (ok = false → s'.items = s.items ∧ s'.wq = s.wq ∧ s'.sq = s.sq ∧ s'.workers = s.workers ∧
+        s'.slowRun = s.slowRun ∧ s'.idle = s.idle ∧ (s'.loops l).q = (s.loops l).q ∧
+        (s'.loops l).lq = (s.loops l).lq ∧ (s'.loops l).async = (s.loops l).async ∧
+        ∀ l', l' ≠ l → s'.loops l' = s.loops l') :=
+  cancel_region1 (inv_reach hr) e
+
+/-- `cancel_exact`, the rest of `uv__work_cancel`: it returns 0 iff the first region decided "cancelled" (then the
+    request is queued for its loop as cancelled and the loop is woken) and `UV_EBUSY` otherwise, changing nothing. -/
+theorem cancel_returns {s s' : State} {l i : Nat} {ok : Bool} {evs : List Ev}
+    (e : step s (.go l) = some (s', evs)) (hc : (s.loops l).cmid = some (i, ok)) :
+    (∀ v, Ev.ret v ∈ evs ↔ v = (if ok then 0 else EBUSY)) ∧
+    (ok = true → (s'.items i).cancelOk = true ∧ (s'.items i).work = .cancelled ∧ i ∈ (s'.loops l).q ∧
+      (s'.loops l).async = true ∧ (s'.items i).starts = (s.items i).starts) ∧
+    (ok = false → s'.items = s.items ∧ s'.wq = s.wq ∧ s'.sq = s.sq ∧ s'.workers = s.workers ∧
+      s'.slowRun = s.slowRun ∧ s'.idle = s.idle ∧ (s'.loops l).q = (s.loops l).q ∧
+      (s'.loops l).lq = (s.loops l).lq) :=
+  cancel_region2 e hc
+
+/-- `cancel_exact`, the future: once `uv_cancel` returned 0 for a request, in every later state of every
+    continuation its work function has never started and, if its callback ran, the status is `UV_ECANCELED`. -/
+theorem cancelled_never_runs {n L : Nat} {s : State} (hr : Reach n L s) {i : Nat} (hi : i < s.nItems)
+    (hc : (s.items i).cancelOk = true) (as : List Act) :
+    ((run s as).items i).starts = 0 ∧ ((run s as).items i).returned = false ∧
+    (((run s as).items i).dones = 1 → ((run s as).items i).status = ECANCELED) := by
+  obtain ⟨hi', hc'⟩ := cancelOk_run as hi hc
+  have a := (inv_reach (reach_run hr as)).itemOk i hi'
+  simp only [ItemOk] at a
+  split at a <;> grind
+
+-- cancel of a queued item returns 0, cancel of a running item returns UV_EBUSY
+example : ((step (run (State.init 1 1) [.sub 0 .cpu 0, .sub 0 .slow 0, .wk 0 0, .can 0 1]) (.go 0)).map
+      (fun r => r.2.any (fun | .ret v => v == 0 | _ => false))) = some true ∧
+    ((step (run (State.init 1 1) [.sub 0 .cpu 0, .sub 0 .slow 0, .wk 0 0, .can 0 0]) (.go 0)).map
+      (fun r => r.2.any (fun | .ret v => v == EBUSY | _ => false))) = some true := by decide
+
+/-- `slow_cap`: `slow_io_work_running` equals the number of workers occupied by slow I/O (from the dequeue of a
+    slow item until the decrement at :137), never underflows and never exceeds (n+1)/2. -/
+theorem slow_cap {n L : Nat} {s : State} (hr : Reach n L s) :
+    s.slowRun = cnt isSlow s.workers s.n ∧ 0 ≤ s.slowRun ∧ s.slowRun ≤ ((s.n + 1) / 2 : Nat) := by
+  have h := inv2_reach hr
+  exact ⟨h.slowEq, by rw [h.slowEq]; omega, h.slowLe⟩
+
+/-- `idle_threads` equals the number of workers inside `uv_cond_wait` (:76-78). -/
+theorem idle_exact {n L : Nat} {s : State} (hr : Reach n L s) :
+    s.idle = cnt isIdle s.workers s.n := (inv2_reach hr).idleEq
+
+-- two workers: the second slow request has to wait while one worker runs the first (cap = 1)
+example : (run (State.init 2 1) [.sub 0 .slow 0, .sub 0 .slow 0, .wk 0 0, .wk 1 0]).slowRun = 1 ∧
+    (run (State.init 2 1) [.sub 0 .slow 0, .sub 0 .slow 0, .wk 0 0, .wk 1 0]).workers 1 = .waiting ∧
+    (run (State.init 2 1) [.sub 0 .slow 0, .sub 0 .slow 0, .wk 0 0, .wk 1 0]).sq = [1] := by decide
+
+/-- `fast_not_starved`: with two or more workers, slow I/O never occupies all of them, so at every moment some
+    worker is either free or busy with non-slow work and will take queued fast work without any slow request
+    having to finish. -/
+theorem fast_not_starved {n L : Nat} {s : State} (hr : Reach n L s) (h2 : 2 ≤ s.n) :
+    ∃ t, t < s.n ∧ isSlow (s.workers t) = false := by
+  obtain ⟨e, -, le⟩ := slow_cap hr
+  apply cnt_lt_exists
+  have : ((cnt isSlow s.workers s.n : Nat) : Int) ≤ ((s.n + 1) / 2 : Nat) := by rw [← e]; exact le
+  omega
+
+/-- `marker_unique`: `run_slow_work_message` is in the global queue at most once (and no request twice). -/
+theorem marker_unique {n L : Nat} {s : State} (hr : Reach n L s) :
+    s.wq.count .marker ≤ 1 ∧ s.wq.Nodup := by
+  have h := (inv_reach hr).wqNd
+  exact ⟨List.nodup_iff_count.mp h _, h⟩
+
+/-- part of `no_stuck_state`: pending slow requests always have their marker in the global queue, completed or
+    cancelled requests waiting in a loop's queue always have that loop's async pending (the wake-up itself is
+    C09's guarantee), and the locked loop of `worker()` always terminates (the model's fuel is never exhausted). -/
+theorem nothing_stranded {n L : Nat} {s : State} (hr : Reach n L s) :
+    (s.sq ≠ [] → Ent.marker ∈ s.wq) ∧ (∀ l, (s.loops l).q ≠ [] → (s.loops l).async = true) ∧
+    (∀ r, dqLoop (threshold s.n) r (dqFuel s.wq) s.wq s.sq ≠ .fuel) := by
+  have h := inv3_reach hr
+  exact ⟨h.markerFor, h.asyncFor, fun r => dq_fuel _ _ _ _ _ (inv_reach hr).wqNd (by simp [dqFuel])⟩
+
+/-- a queued request is where the queues say it is: every submitted, not yet reported request is in exactly the
+    place its ghost location names (used by the monitors' reading of the dumps) -/
+theorem queued_requests_are_not_lost {n L : Nat} {s : State} (hr : Reach n L s) {i : Nat} (hi : i < s.nItems)
+    (hd : (s.items i).dones = 0) :
+    Ent.item i ∈ s.wq ∨ i ∈ s.sq ∨ (∃ t, (s.workers t).gotItem = some i ∨ (s.workers t).inwItem = some i) ∨
+    i ∈ (s.loops (s.items i).loop).q ∨ i ∈ (s.loops (s.items i).loop).lq ∨
+    (s.loops (s.items i).loop).cmid = some (i, true) := by
+  have h := inv_reach hr
+  have a := h.itemOk i hi
+  have r1 := h.wqRev i hi; have r2 := h.sqRev i hi; have r3 := h.lqRev i hi; have r4 := h.cmRev i hi
+  have r5 := h.gotRev i; have r6 := h.inwRev i
+  simp only [ItemOk] at a
+  split at a <;> grind
+
+/-- `no_stuck_state` (liveness half of `done_exactly_once_after_work`, as a safety invariant = no lost wake-up):
+    whenever the global queue holds something a worker may take (it is non-empty and not just the slow marker at
+    the cap), some worker is not parked in `uv_cond_wait` — it has been signalled (its dequeue step is enabled),
+    is starting, or is busy with a request and will re-examine the queue when done.  Spurious wake-ups are not
+    needed for progress.  Together with `nothing_stranded` (slow requests keep their marker; completions keep their
+    loop's async pending) and C09 (a pending async wakes the loop) every queued request is eventually served
+    under the fairness assumption "every enabled step is eventually taken". -/
+theorem no_stuck_state {n L : Nat} {s : State} (h1 : 1 ≤ n) (hr : Reach n L s)
+    (tk : s.wq ≠ [] ∧ ¬(s.wq = [.marker] ∧ s.slowRun ≥ threshold s.n)) :
+    ∃ t, t < s.n ∧ s.workers t ≠ .waiting :=
+  (inv5_reach h1 hr).1 tk
+
+-- all workers parked, then a submit: the signal un-parks one of them
+example : (run (State.init 2 1) [.wk 0 0, .wk 1 0]).workers 0 = .waiting ∧
+    (run (State.init 2 1) [.wk 0 0, .wk 1 0]).workers 1 = .waiting ∧
+    (run (State.init 2 1) [.wk 0 0, .wk 1 0, .sub 0 .cpu 1]).workers 1 = .woken ∧
+    (run (State.init 2 1) [.wk 0 0, .wk 1 0, .sub 0 .cpu 1]).wq = [.item 0] := by decide
+
+/-- `loop_alive_until_done`, stated; not proved here (checked on the implementation by the `active-reqs`
+    monitor after every action and by `uv_loop_alive` in the real-thread run): the loop's request count equals
+    the number of its requests whose callback has not run, so the loop stays alive until the last callback;
+    `uv__queue_done` unregisters before calling the user's callback (threadpool.c:360). -/
+def loop_alive_until_done_statement : Prop :=
+  ∀ n L s, Reach n L s → ∀ l, l < s.nLoops →
+    (s.loops l).reqs = cnt (fun it : Item => decide (it.loop = l) && decide (it.dones = 0)) s.items s.nItems
+
 end UvModel.Tpool
